@@ -127,6 +127,10 @@ var lamDefs = []lamDef{
 	{"and-or", "(x y)", `(list (and x y) (or x y) (not x))`, []string{"nil 2", "1 nil", "1 2"}},
 	{"make-instance", "(x)", `(make-instance 'vanilla-flavor)`, nil},
 	{"defvar-in-body", "(x)", `(progn (defvar $v x "Doc var.") $v)`, []string{"1"}},
+	// a call whose function position is a lambda expression, inside a body (a compiled call object without a name)
+	{"inplace-lambda-call", "(y)", `((lambda (x) (+ x y)) 1)`, []string{"2"}},
+	{"inplace-lambda-call-nested", "(y)", `(list ((lambda (x &optional (z 3)) (list x y z)) 1) y)`, []string{"2"}},
+	{"empty-body", "(x)", ``, []string{"1"}},
 }
 
 func init() {
@@ -473,6 +477,29 @@ func init() {
 	cls("inherit-two", `(defclass $b () ((x :initform 1))) (defclass $d () ((x :initform 7) (z :initform 3))) (defclass $c ($b $d) ((y :initform 2)))`,
 		[]string{"(make-load-form '$b)", "(make-load-form '$d)", "(make-load-form '$c)"},
 		"(c19-instance-dump (make-instance '$c))")
+	// ------------------------------------------------------------- structures
+	str := func(feat, setup string, probes ...string) {
+		probes = append(probes, "(make-load-form '$s)")
+		addCase(&lfCase{label: "struct:" + feat, kind: "struct", feat: feat, setup: setup, defs: []string{"(make-load-form '$s)"}, probes: probes, optional: true})
+	}
+	str("plain", `(defstruct $s (x 1) y)`, "(list ($s-x (make-$s)) ($s-y (make-$s :y 2)) ($s-p (make-$s)))")
+	str("conc-name", `(defstruct ($s (:conc-name $q-)) (x 1))`, "($q-x (make-$s))", "(fboundp '$s-x)")
+	str("conc-name-nil", `(defstruct ($s (:conc-name nil)) ($x 1))`, "($x (make-$s))")
+	str("constructor", `(defstruct ($s (:constructor $mk)) (x 1))`, "($s-x ($mk))", "(fboundp 'make-$s)")
+	str("constructor-with-arguments", `(defstruct ($s (:constructor $mk (x &optional (y 5)))) x y)`, "(let ((i ($mk 1))) (list ($s-x i) ($s-y i)))")
+	str("no-copier", `(defstruct ($s (:copier nil)) (x 1))`, "(fboundp 'copy-$s)", "($s-x (make-$s))")
+	str("no-predicate", `(defstruct ($s (:predicate nil)) (x 1))`, "(fboundp '$s-p)", "($s-x (make-$s))")
+	str("copier-and-predicate-names", `(defstruct ($s (:copier $cp) (:predicate $is)) (x 1))`, "($is (make-$s))", "($s-x ($cp (make-$s :x 4)))")
+	str("slot-type", `(defstruct $s (x 1 :type fixnum))`, "($s-x (make-$s :x 2))", `(make-$s :x "s")`)
+	str("slot-read-only", `(defstruct $s (x 1 :read-only t) (y 2))`, "(let ((i (make-$s))) (setf ($s-x i) 3) ($s-x i))", "(let ((i (make-$s))) (setf ($s-y i) 3) ($s-y i))")
+	str("documentation", `(defstruct $s "Doc of the structure." (x 1))`, "($s-x (make-$s))", "(documentation '$s 'structure)")
+	str("type-list", `(defstruct ($s (:type list)) (x 1) (y 2))`, "(make-$s)", "($s-y (make-$s :y 5))")
+	str("type-vector-named", `(defstruct ($s (:type vector) :named) (x 1))`, "(make-$s)", "($s-x (make-$s))")
+	str("initial-offset", `(defstruct ($s (:type list) (:initial-offset 2)) (x 1))`, "(make-$s)", "($s-x (make-$s))")
+	str("include-with-default", `(defstruct $b (x 1)) (defstruct ($s (:include $b (x 5))) (y 2))`, "(let ((i (make-$s))) (list ($s-x i) ($s-y i) ($b-p i)))")
+	lfIndex["struct:include-with-default"].defs = []string{"(make-load-form '$b)", "(make-load-form '$s)"}
+	// an instance whose state lives in Go, not in instance variables
+	data("flavor-instance", "go-backed-bag", "flavor-instance:bag", `(make-bag "{a:1 b:[1 2 true null] c:{d:\"x\"}}")`)
 	// --------------------------------------------------------------- generics
 	gen := func(feat, support, setup string, probes ...string) {
 		probes = append(probes, "(make-load-form '$g)")
@@ -518,6 +545,33 @@ func init() {
 (defmethod $g ((first-argument fixnum) (second-argument string)) (let ((first-value (+ first-argument 100000)) (second-value (concatenate 'string second-argument "-suffix"))) (cond ((< first-argument 0) (list 'negative first-value)) (t (list 'positive first-value second-value)))))
 (defmethod $g ((first-argument string) (second-argument t)) (list "a long string of words that is wider than the narrow margins" first-argument second-argument))`,
 		`($g 1 "a")`, `($g -1 "a")`, `($g "s" 2)`)
+	// every qualifier's method has a lambda list of its own: defaults and parameter names may differ from the primary method's
+	gen("qualifier-own-defaults", "(defvar $v nil)", `(defgeneric $g (a &optional b))
+(defmethod $g ((a fixnum) &optional (b 7)) (setq $v (cons (list 'primary b) $v)) (list a b))
+(defmethod $g :before ((a fixnum) &optional (b 9)) (setq $v (cons (list 'before b) $v)))
+(defmethod $g :after ((a fixnum) &optional (b 11)) (setq $v (cons (list 'after b) $v)))
+(defmethod $g :around ((a fixnum) &optional (b 13)) (setq $v (cons (list 'around b) $v)) (call-next-method))`,
+		"(progn (setq $v nil) (list ($g 1) $v))", "(progn (setq $v nil) (list ($g 1 2) $v))")
+	gen("qualifier-own-parameter-names", "(defvar $v nil)", `(defgeneric $g (a))
+(defmethod $g ((a fixnum)) (list 'primary a))
+(defmethod $g :before ((x fixnum)) (setq $v (list 'before x)))
+(defmethod $g :after ((y fixnum)) (setq $v (list $v 'after y)))`,
+		"(progn (setq $v nil) (list ($g 1) $v))")
+	gen("method-parameter-names-differ", "", `(defgeneric $g (a b))
+(defmethod $g ((x fixnum) (y string)) (list 'fixnum-string x y))
+(defmethod $g ((p string) (q t)) (list 'string-any p q))`, `($g 1 "a")`, `($g "s" 2)`)
+	gen("empty-method-body", "", `(defgeneric $g (a))
+(defmethod $g ((a fixnum)))
+(defmethod $g ((a string)) (list a))`, "($g 1)", `($g "s")`)
+	// a generic function that has the reader / accessor methods a defclass made AND methods written in Lisp
+	addCase(&lfCase{label: "generic:accessor-and-user-method", kind: "generic", feat: "accessor-and-user-method",
+		setup: `(defclass $c () ((s :initform 1 :accessor $g :reader $r)))
+(defmethod $g ((x string)) (list 'string x))
+(defmethod $r ((x fixnum)) (list 'fixnum x))`,
+		defs:   []string{"(make-load-form '$c)", "(make-load-form '$g)", "(make-load-form '$r)"},
+		pnames: []string{"accessor-method", "user-method", "setf-accessor", "reader-method", "user-method-on-reader", "", "", ""},
+		probes: []string{"($g (make-instance '$c))", `($g "a")`, "(let ((i (make-instance '$c))) (setf ($g i) 4) ($g i))", "($r (make-instance '$c))", "($r 5)",
+			"(make-load-form '$c)", "(make-load-form '$g)", "(make-load-form '$r)"}})
 	gen("eql-free-three-args", "", `(defgeneric $g (a b c))
 (defmethod $g ((a fixnum) (b t) (c string)) (list 1 a b c))
 (defmethod $g ((a t) (b fixnum) (c t)) (list 2 a b c))`, `($g 1 2 "s")`, `($g "x" 2 3)`, `($g 1 'q "s")`)
@@ -531,6 +585,7 @@ func enumerateLF(tier string, emit func(string)) {
 		emit("lf|" + c.label)
 	}
 	enumerateInhLF(tier, emit)
+	enumerateOvLF(tier, emit)
 }
 
 // lfCaseOf: table cases by label, inheritance worlds (inherit.go) built on demand.
@@ -540,6 +595,9 @@ func lfCaseOf(label string) *lfCase {
 	}
 	if strings.HasPrefix(label, "inh:") {
 		return inhCase(label)
+	}
+	if strings.HasPrefix(label, "ov:") {
+		return ovCase(label)
 	}
 	return nil
 }
